@@ -47,6 +47,7 @@ type State struct {
 	epoch  map[string]string // alias class -> id of the last kill (memory SSA by class)
 	iv     map[*Term]itv
 	ub     map[*Term]map[*Term]int64 // x <= y + c
+	rub    map[*Term]map[*Term]int64 // reverse index: rub[y][x] = c
 	nn     map[*Term]bool            // non-nil
 	isnil  map[*Term]bool
 	dyn    map[*Term]types.Type // dynamic type of an interface term
@@ -58,11 +59,21 @@ type State struct {
 
 func newState() *State {
 	return &State{vals: map[vkey]*Term{}, ints: map[vkey]Lin{}, tuples: map[vkey][]cell{}, mem: map[*Term]cell{}, epoch: map[string]string{},
-		iv: map[*Term]itv{}, ub: map[*Term]map[*Term]int64{}, nn: map[*Term]bool{}, isnil: map[*Term]bool{}, dyn: map[*Term]types.Type{},
+		iv: map[*Term]itv{}, ub: map[*Term]map[*Term]int64{}, rub: map[*Term]map[*Term]int64{}, nn: map[*Term]bool{}, isnil: map[*Term]bool{}, dyn: map[*Term]types.Type{},
 		tbl: map[*Term]*tableSummary{}, part: map[*Term]string{}}
 }
 
+var CloneStats [8]int64
+
 func (s *State) clone() *State {
+	CloneStats[0]++
+	CloneStats[1] += int64(len(s.vals))
+	CloneStats[2] += int64(len(s.ints))
+	CloneStats[3] += int64(len(s.mem))
+	CloneStats[4] += int64(len(s.iv))
+	CloneStats[5] += int64(len(s.ub))
+	CloneStats[6] += int64(len(s.nn))
+	CloneStats[7] += int64(len(s.epoch))
 	n := newState()
 	for k, v := range s.vals {
 		n.vals[k] = v
@@ -89,6 +100,13 @@ func (s *State) clone() *State {
 		}
 		n.ub[k] = mm
 	}
+	for k, m := range s.rub {
+		mm := make(map[*Term]int64, len(m))
+		for k2, v := range m {
+			mm[k2] = v
+		}
+		n.rub[k] = mm
+	}
 	for k, v := range s.nn {
 		n.nn[k] = v
 	}
@@ -106,6 +124,15 @@ func (s *State) clone() *State {
 	}
 	n.guards = append([]guard(nil), s.guards...)
 	n.dead = s.dead
+	return n
+}
+
+// cloneForCallee copies everything except the caller's SSA-value bindings (the callee cannot name them).
+func (s *State) cloneForCallee() *State {
+	sv, si, st := s.vals, s.ints, s.tuples
+	s.vals, s.ints, s.tuples = map[vkey]*Term{}, map[vkey]Lin{}, map[vkey][]cell{}
+	n := s.clone()
+	s.vals, s.ints, s.tuples = sv, si, st
 	return n
 }
 
@@ -165,6 +192,21 @@ func (s *State) addUB(x, y *Term, c int64) {
 	}
 	if old, ok := m[y]; !ok || c < old {
 		m[y] = c
+		r := s.rub[y]
+		if r == nil {
+			r = map[*Term]int64{}
+			s.rub[y] = r
+		}
+		r[x] = c
+	}
+}
+
+func (s *State) delUB(x, y *Term) {
+	if m := s.ub[x]; m != nil {
+		delete(m, y)
+	}
+	if r := s.rub[y]; r != nil {
+		delete(r, x)
 	}
 }
 
@@ -185,12 +227,10 @@ func (s *State) hi(l Lin) int64 {
 // lowerBound of a term: its interval, improved by z <= t + k facts (lo(z) - k <= t).
 func (s *State) lowerBound(t *Term) int64 {
 	b := s.getIv(t).lo
-	for z, m := range s.ub {
-		if k, ok := m[t]; ok {
-			if lz := s.getIv(z).lo; lz > -inf {
-				if v := lz - k; v > b {
-					b = v
-				}
+	for z, k := range s.rub[t] {
+		if lz := s.getIv(z).lo; lz > -inf {
+			if v := lz - k; v > b {
+				b = v
 			}
 		}
 	}
@@ -240,13 +280,11 @@ func (s *State) proveLE(x, y Lin, c int64) bool {
 			return true
 		}
 	}
-	for z, m := range s.ub {
-		if c2, ok := m[y.base]; ok {
-			// z <= y + c2 ; need x <= z + (d - c2)
-			if hx < inf {
-				if lz := s.getIv(z).lo; lz > -inf && hx <= lz+d-c2 {
-					return true
-				}
+	for z, c2 := range s.rub[y.base] {
+		// z <= y + c2 ; need x <= z + (d - c2)
+		if hx < inf {
+			if lz := s.getIv(z).lo; lz > -inf && hx <= lz+d-c2 {
+				return true
 			}
 		}
 	}
@@ -477,18 +515,19 @@ func (an *Analyzer) mergeInt(n, a, b *State, x, y Lin, key string, typ types.Typ
 			for t := range s.ub[l.base] {
 				cands[t] = true
 			}
-			for z, mm := range s.ub {
-				if _, ok := mm[l.base]; ok {
-					cands[z] = true
-				}
+			for z := range s.rub[l.base] {
+				cands[z] = true
 			}
 		}
 	}
 	collect(a, x)
 	collect(b, y)
-	for t := range a.iv {
-		if t.kind == "len" {
-			cands[t] = true
+	if x.base == nil || y.base == nil {
+		// constants merging with something: relate to lengths with a known positive lower bound
+		for t, v := range a.iv {
+			if t.kind == "len" && v.lo > 0 {
+				cands[t] = true
+			}
 		}
 	}
 	for t := range cands {
@@ -569,15 +608,11 @@ func (an *Analyzer) mergeRef(n, a, b *State, x, y *Term, key string) *Term {
 	for t := range b.ub[ly] {
 		cands[t] = true
 	}
-	for z, mm := range a.ub {
-		if _, ok := mm[lx]; ok {
-			cands[z] = true
-		}
+	for z := range a.rub[lx] {
+		cands[z] = true
 	}
-	for z, mm := range b.ub {
-		if _, ok := mm[ly]; ok {
-			cands[z] = true
-		}
+	for z := range b.rub[ly] {
+		cands[z] = true
 	}
 	for t := range cands {
 		if t == lm {
@@ -701,4 +736,174 @@ func equalStates(a, b *State) bool {
 		nb += len(m)
 	}
 	return na == nb
+}
+
+// ---- separation: what a callee cannot reach stays with the caller ----
+
+// reachMarks computes the terms reachable from the given roots through memory.
+func (an *Analyzer) reachMarks(s *State, roots []cell) map[*Term]bool {
+	marked := map[*Term]bool{}
+	var mark func(t *Term)
+	mark = func(t *Term) {
+		if t == nil || marked[t] {
+			return
+		}
+		marked[t] = true
+		mark(t.a)
+		mark(t.b)
+	}
+	for _, c := range roots {
+		if c.int {
+			mark(c.lin.base)
+		} else {
+			mark(c.t)
+		}
+	}
+	for _, ts := range s.tbl {
+		mark(ts.arg)
+	}
+	for t := range s.part {
+		mark(t)
+	}
+	reach := func(addr *Term) bool {
+		for x := addr; x != nil; x = x.a {
+			if marked[x] || x.kind == "global" {
+				return true
+			}
+			if x.kind != "addr" && x.kind != "boxaddr" && x.kind != "sval" {
+				break
+			}
+		}
+		return false
+	}
+	for changed := true; changed; {
+		changed = false
+		for addr, c := range s.mem {
+			if marked[addr] && (c.int && (c.lin.base == nil || marked[c.lin.base]) || !c.int && (c.t == nil || marked[c.t])) {
+				continue
+			}
+			if !reach(addr) {
+				continue
+			}
+			if !marked[addr] {
+				mark(addr)
+				changed = true
+			}
+			if c.int {
+				if c.lin.base != nil && !marked[c.lin.base] {
+					mark(c.lin.base)
+					changed = true
+				}
+			} else if c.t != nil && !marked[c.t] {
+				mark(c.t)
+				changed = true
+			}
+		}
+	}
+	return marked
+}
+
+func termLive(marked map[*Term]bool, t *Term) bool {
+	if t == nil || marked[t] {
+		return true
+	}
+	switch t.kind {
+	case "len", "cap":
+		return termLive(marked, t.a)
+	case "add":
+		return termLive(marked, t.a) && termLive(marked, t.b)
+	case "const", "global", "func":
+		return true
+	}
+	return false
+}
+
+// splitForCallee moves everything the callee cannot reach into a separate "rest" state.
+func (an *Analyzer) splitForCallee(s *State, roots []cell) (callee, rest *State) {
+	marked := an.reachMarks(s, roots)
+	callee, rest = newState(), newState()
+	for addr, c := range s.mem {
+		if marked[addr] {
+			callee.mem[addr] = c
+		} else {
+			rest.mem[addr] = c
+		}
+	}
+	for k, v := range s.epoch {
+		callee.epoch[k] = v
+	}
+	for t, v := range s.iv {
+		if termLive(marked, t) {
+			callee.iv[t] = v
+		} else {
+			rest.iv[t] = v
+		}
+	}
+	for x, m := range s.ub {
+		for y, c := range m {
+			if termLive(marked, x) && termLive(marked, y) {
+				callee.addUB(x, y, c)
+			} else {
+				rest.addUB(x, y, c)
+			}
+		}
+	}
+	for t := range s.nn {
+		if termLive(marked, t) {
+			callee.nn[t] = true
+		} else {
+			rest.nn[t] = true
+		}
+	}
+	for t := range s.isnil {
+		if termLive(marked, t) {
+			callee.isnil[t] = true
+		} else {
+			rest.isnil[t] = true
+		}
+	}
+	for t, ty := range s.dyn {
+		if termLive(marked, t) {
+			callee.dyn[t] = ty
+		} else {
+			rest.dyn[t] = ty
+		}
+	}
+	for t, v := range s.tbl {
+		callee.tbl[t] = v
+	}
+	for t, v := range s.part {
+		callee.part[t] = v
+	}
+	return callee, rest
+}
+
+// reattach merges the caller-only part back after the call.
+func (s *State) reattach(rest *State) {
+	for addr, c := range rest.mem {
+		if _, ok := s.mem[addr]; !ok {
+			s.mem[addr] = c
+		}
+	}
+	for t, v := range rest.iv {
+		if _, ok := s.iv[t]; !ok {
+			s.iv[t] = v
+		}
+	}
+	for x, m := range rest.ub {
+		for y, c := range m {
+			s.addUB(x, y, c)
+		}
+	}
+	for t := range rest.nn {
+		s.nn[t] = true
+	}
+	for t := range rest.isnil {
+		s.isnil[t] = true
+	}
+	for t, ty := range rest.dyn {
+		if _, ok := s.dyn[t]; !ok {
+			s.dyn[t] = ty
+		}
+	}
 }
